@@ -134,6 +134,10 @@ type c17World struct {
 	lagOp     bool                           // the running reconcile is a `lagrec` op
 	versions  []*sev1alpha1.PodMigrationJob // every version of the job since the last controller (re)start, oldest first
 	noJobEnv  bool                           // the environment never writes the job object (no pause / arbitration annotation)
+
+	// ----- scavenger stream (ext5) -----
+	stampJob bool // the Create interceptor plays the API server for a job created through Reconciler.Evict
+	jobGone  bool // the scavenger has deleted the job object
 }
 
 // c17Tmpl: Spec.ReservationOptions.Template as a user may write it (no ReservationRef).
@@ -457,6 +461,11 @@ func (w *c17World) funcs() interceptor.Funcs {
 					return c17ErrInjected
 				}
 			}
+			if job, isJob := obj.(*sev1alpha1.PodMigrationJob); isJob && w.stampJob {
+				// what the API server does on a create (the fake client does not): uid and creation timestamp
+				job.UID = c17ResvName
+				job.CreationTimestamp = metav1.Time{Time: w.clk.Now()}
+			}
 			return c.Create(ctx, obj, opts...)
 		},
 		Update: func(ctx context.Context, c client.WithWatch, obj client.Object, opts ...client.UpdateOption) error {
@@ -492,6 +501,12 @@ func (w *c17World) funcs() interceptor.Funcs {
 					w.failLast()
 				}
 				return err
+			}
+			if _, isJob := obj.(*sev1alpha1.PodMigrationJob); isJob {
+				// only the scavenger deletes a job (ext5): write kind 12
+				if !w.write(12, 0) {
+					return c17ErrInjected
+				}
 			}
 			return c.Delete(ctx, obj, opts...)
 		},
